@@ -20,18 +20,18 @@ func init() { Registry["C07"] = runC07 }
 
 // vmCase is one running manager under observation.
 type vmCase struct {
-	c    *vlib.Ctx
-	wd   *vlib.Watchdog
-	in   *vlib.Instance
+	c  *vlib.Ctx
+	wd *vlib.Watchdog
+	in *vlib.Instance
 	// nodes whose configuration stays undecodable: nothing is demanded for them, everything for the rest
 	undecodable map[string]bool
-	nc   *nats.Conn
-	mon  *vMonitor
-	d    *gdriver
-	mgr  *client.Manager[VNode]
-	done chan error
-	unh  func()
-	i    int
+	nc          *nats.Conn
+	mon         *vMonitor
+	d           *gdriver
+	mgr         *client.Manager[VNode]
+	done        chan error
+	unh         func()
+	i           int
 
 	barrierN int
 }
@@ -502,6 +502,25 @@ func runC07(tier string, _ []string) int {
 		}
 		kinds := map[string]bool{}
 		nOps := 10 + r.Intn(12)
+		if i%10 == 3 {
+			// bulky neighbours: nodes of a type the manager has nothing to do with, next to the ones it manages,
+			// holding more data than one bus message can carry (five times 250 KiB below the root, five more
+			// below a group)
+			blob := strings.Repeat("0123456789abcdef", 16*1024)
+			bg, err := mkNode(g.Root, "group", nil)
+			for q := 0; q < 10 && err == nil; q++ {
+				parent := g.Root
+				if q >= 5 {
+					parent = bg
+				}
+				_, err = mkNode(parent, "blob", data.Points{{Type: "payload", Time: d.now(), Text: blob[:250*1024+q], Origin: "harness"}})
+			}
+			if err != nil {
+				c.Violate("store:legal-write-refused", "bulky neighbours: "+err.Error(), v.wit(nil))
+				return
+			}
+			c.Count("histories_with_bulky_neighbours", 1)
+		}
 		// in a quarter of the histories the manager is stopped right after the last operation, while
 		// scans, constructions and restarts caused by it may still be under way
 		stopMidway := r.Chance(0.25)
